@@ -362,8 +362,75 @@ func (w *World) ResizeOp() {
 		}
 	}
 	s.Note = name + " size=" + str
+	// a growth in which one replica (not the only RW one) fails its own resize: it alone must be isolated
+	var failing *Fake
+	if kind == 0 && r.Chance(60) {
+		var live []*Fake
+		nrw := 0
+		for _, rp := range st.Replicas {
+			if rp.Mode != types.ERR {
+				live = append(live, w.Fakes[rp.Address])
+			}
+			if rp.Mode == types.RW {
+				nrw++
+			}
+		}
+		if len(live) >= 2 {
+			f := live[r.Intn(len(live))]
+			rwLeft := nrw
+			for _, rp := range st.Replicas {
+				if rp.Address == f.Addr && rp.Mode == types.RW {
+					rwLeft--
+				}
+			}
+			if rwLeft >= 1 {
+				failing = f
+				f.mu.Lock()
+				f.ResizeFail = true
+				f.mu.Unlock()
+				s.Note += " (resize fails on " + f.Addr + ")"
+				w.Res.Count("controller_resizes_with_one_replica_failing", 1)
+			}
+		}
+	}
 	err := w.C.Resize(name, str)
 	w.Res.Count("controller_resizes", 1)
+	if failing != nil {
+		failing.mu.Lock()
+		failing.ResizeFail = false
+		failing.mu.Unlock()
+		w.Settle()
+		mid := w.C.VerifState()
+		for _, rp := range mid.Replicas {
+			if rp.Address == failing.Addr && rp.Mode != types.ERR {
+				w.FailAny([]string{"C16", "C05"}, "resize:replica-that-failed-its-resize-kept:"+string(rp.Mode), fmt.Sprintf("%s failed its resize to %s (it still has %d bytes) but is kept as %s in a volume of %d bytes: %s", failing.Addr, str, failing.Size, rp.Mode, mid.Size, digest(mid, true)))
+				return
+			}
+		}
+		for _, rp := range st.Replicas {
+			if rp.Address == failing.Addr || rp.Mode == types.ERR {
+				continue
+			}
+			kept := false
+			for _, q := range mid.Replicas {
+				if q.Address == rp.Address && q.Mode == rp.Mode {
+					kept = true
+				}
+			}
+			if !kept {
+				w.FailAny([]string{"C16", "C05"}, "resize:healthy-replica-isolated-instead", fmt.Sprintf("%s resized fine but is no longer attached as %s after %s failed its resize: %s", rp.Address, rp.Mode, failing.Addr, digest(mid, true)))
+				return
+			}
+		}
+		// what the clauses below look at: the membership without the isolated replica
+		var rest []types.Replica
+		for _, rp := range st.Replicas {
+			if rp.Address != failing.Addr {
+				rest = append(rest, rp)
+			}
+		}
+		st.Replicas = rest
+	}
 	post := w.C.VerifState()
 	if kind != 0 {
 		if err == nil {
